@@ -48,13 +48,29 @@ def one_family(sc, verdict, fam, thorough, seed, invariants, stats, cmds, sample
     # ---- (A) simulated behaviours replayed lock-step
     write_cfg(sc, "gen_%s.cfg" % fam["name"], p, "GenSpec")
     n = fam["paths_thorough"] if thorough else fam["paths_quick"]
-    rs, paths = vlib.sim_paths(sc, "IncrSync", "gen_%s.cfg" % fam["name"], n, fam.get("depth", 60), seed, fields={"last"})
+    prefer = fam.get("prefer")
+    rs, paths = vlib.sim_paths(sc, "IncrSync", "gen_%s.cfg" % fam["name"], n * (12 if prefer else 1), fam.get("depth", 60), seed, fields={"last"})
     cmds.append(rs.cmd)
     steps = [[s["last"] for s in pth] for pth in paths]
+    if prefer:
+        # stratified choice: of 12x as many simulated behaviours, those showing the family's pattern first (at most half of the budget)
+        hit = [st for st in steps if prefer(st)]
+        rest = [st for st in steps if not prefer(st)]
+        steps = hit[:n // 2] + rest[:n - min(len(hit), n // 2)]
+        log("[A] IncrSync/%s: %d of %d simulated behaviours show the preferred pattern, %d of them replayed" % (fam["name"], len(hit), len(paths), min(len(hit), n // 2)))
     # hand-picked source streams of this family (only the emissions: the driver then parses, dequeues, ticks and lets the target
     # process everything until nothing moves), always replayed whatever the simulator drew
+    # ("cut", 0) in such a stream: everything emitted so far is processed to quiescence, the run is cut and resumed from whatever the real
+    # loader finds (only the contract judges the outcome: the model is not followed step by step on these paths)
     for items in fam.get("fixed", []):
-        steps.append([{"a": "SrcEmit", "item": {"t": t, "d": d, "id": i + 1}} for i, (t, d) in enumerate(items)])
+        path, iid = [], 0
+        for t, d in items:
+            if t == "cut":
+                path += [{"a": "Quiesce"}, {"a": "Crash", "off": -2}]
+            else:
+                iid += 1
+                path.append({"a": "SrcEmit", "item": {"t": t, "d": d, "id": iid}})
+        steps.append(path)
     trace = sc.path("trace-%s.ndjson" % fam["name"])
     inp = {"seed": seed, "cfg": drv_cfg(p), "paths": steps, "trace": trace}
     rc, out, err = vlib.run_vdrv(["incr"], stdin=json.dumps(inp), timeout=3000)
